@@ -175,6 +175,7 @@ type runStats struct {
 	Params                                              map[string]int64
 	inconclusive                                        []string
 	passing                                             []passRec
+	TokenDep                                            int // ok paths whose model fixes input bytes to abstract hash bytes (not replayable)
 	DistinctSig                                         map[string]bool
 }
 
@@ -427,7 +428,13 @@ func checkMain(args []string) int {
 						st.Ok++
 						sig := traceSig(res.Trace)
 						st.DistinctSig[sig] = true
-						if len(res.Violations) == 0 && len(st.passing) < 4096 {
+						if res.TokenDep {
+							st.TokenDep++
+							if *verbose {
+								fmt.Fprintf(os.Stderr, "token-dependent model (not replayed): %v obs=%s\n", res.Model, obsText(res.Obs))
+							}
+						}
+						if len(res.Violations) == 0 && !res.TokenDep && len(st.passing) < 4096 {
 							st.passing = append(st.passing, passRec{res.Model, res.Obs, res.Sched})
 						}
 						if len(st.Samples) < 3 {
@@ -461,6 +468,10 @@ func checkMain(args []string) int {
 							if v.Kind == "race" {
 								raceSeen[key] = g
 							}
+						}
+						if g.V.TokenDep && !v.TokenDep {
+							// prefer a representative whose model carries over to the real SHA3
+							g.V, g.Params, g.Sched = v, ts.Params, res.Sched
 						}
 						g.Count++
 					}
